@@ -26,6 +26,7 @@ type Terms struct {
 	mach     map[*ast.FuncLit]*dtab.Machine
 	Opaque   []string // reasons why some term is only an opaque operator
 	acc      map[types.Object]bool
+	refs     map[*types.Func]*Closure
 	closures map[string]*Closure
 	stages   map[string]*Stage
 }
@@ -287,6 +288,11 @@ func (t *Terms) exprTerm(fr *Frame, e ast.Expr, delays map[*Stream]*lin.Expr) (s
 					if cl, ok := cell.V.(*Closure); ok {
 						return t.applyClosure(cl, args)
 					}
+					if ref, ok := cell.V.(*FuncRef); ok {
+						if cl := t.funcRefClosure(ref); cl != nil {
+							return t.applyClosure(cl, args)
+						}
+					}
 				}
 			}
 		}
@@ -348,7 +354,13 @@ func (t *Terms) valueTermAt(v Value, name string, delays map[*Stream]*lin.Expr, 
 					return sym.Call{Fn: "scan", Args: []sym.Expr{body, init}}, nil
 				}
 			}
+			if e, ok, err := t.foldThroughLocal(x, name, delays); ok {
+				return e, err
+			}
 			return nil, fmt.Errorf("%s depends on loop state", name)
+		}
+		if e, ok, err := t.foldThroughLocal(x, name, delays); ok {
+			return e, err
 		}
 		if x.Def != nil && x.Fr != nil {
 			return t.exprTerm(x.Fr, x.Def, delays)
@@ -370,6 +382,31 @@ func (t *Terms) valueTermAt(v Value, name string, delays map[*Stream]*lin.Expr, 
 		return sym.V("#" + n), nil
 	}
 	return nil, fmt.Errorf("%s is %s", name, showVal(v))
+}
+
+// funcRefClosure presents a declared function or method value (helper.Map(c, r.decide)) as a
+// closure: the body of the declaration with the receiver bound to the value it was taken from.
+func (t *Terms) funcRefClosure(ref *FuncRef) *Closure {
+	if cl, ok := t.refs[ref.Fn]; ok {
+		return cl
+	}
+	fi := t.Prog.Decls[ref.Fn.Origin()]
+	if fi == nil || fi.Decl.Body == nil {
+		return nil
+	}
+	env := NewEnv(nil)
+	if fi.Decl.Recv != nil && len(fi.Decl.Recv.List) == 1 && len(fi.Decl.Recv.List[0].Names) == 1 && ref.Recv != nil {
+		if obj := fi.Pkg.TypesInfo.Defs[fi.Decl.Recv.List[0].Names[0]]; obj != nil {
+			env.Define(obj, ref.Recv)
+		}
+	}
+	lit := &ast.FuncLit{Type: fi.Decl.Type, Body: fi.Decl.Body}
+	cl := &Closure{Lit: lit, Env: env, Frame: &Frame{Fn: ref.Fn, FnName: load.FuncName(ref.Fn), Info: fi.Pkg.TypesInfo, PkgPath: fi.Pkg.PkgPath, Env: env, Recv: ref.Recv}}
+	if t.refs == nil {
+		t.refs = map[*types.Func]*Closure{}
+	}
+	t.refs[ref.Fn] = cl
+	return cl
 }
 
 // ClosureName is a position-independent name for a closure: owner function + ordinal.
@@ -607,4 +644,40 @@ func (t *Terms) ClosureApplication(st *Stage) (*Closure, []*Stream) {
 		return cl, ins
 	}
 	return nil, nil
+}
+
+// foldThroughLocal: `current := f(previous, n); previous = current; send current` - the local is
+// the updated loop-carried variable, so its value is the fold scan(f(acc, n), init).
+func (t *Terms) foldThroughLocal(x ElemV, name string, delays map[*Stream]*lin.Expr) (sym.Expr, bool, error) {
+	if x.Self != nil || x.Def == nil || x.Obj == nil || x.Fr == nil || len(t.acc) != 0 {
+		return nil, false, nil
+	}
+	var carried *ElemV
+	x.Fr.Env.Each(func(o types.Object, c *Cell) {
+		if ev, ok := c.V.(ElemV); ok && ev.Self != nil && ev.Def != nil {
+			if id, isID := ast.Unparen(ev.Def).(*ast.Ident); isID && x.Fr.Info.Uses[id] == x.Obj {
+				e2 := ev
+				carried = &e2
+			}
+		}
+	})
+	if carried == nil {
+		return nil, false, nil
+	}
+	switch carried.Init.(type) {
+	case IntV, NumV:
+	default:
+		return nil, false, nil
+	}
+	init, err := t.valueTermAt(carried.Init, name, delays, token.NoPos)
+	if err != nil {
+		return nil, true, err
+	}
+	t.acc[carried.Self] = true
+	body, err := t.exprTerm(x.Fr, x.Def, delays)
+	delete(t.acc, carried.Self)
+	if err != nil {
+		return nil, true, err
+	}
+	return sym.Call{Fn: "scan", Args: []sym.Expr{body, init}}, true, nil
 }
